@@ -29,7 +29,7 @@
 #include <unistd.h>
 
 namespace ops {
-MSSMNoFV_onshell* shared_mssm[2]; THDM* shared_thdm[2]; std::string slha_text[5];
+MSSMNoFV_onshell* shared_mssm[2]; MSSMNoFV_onshell* shared_edge[2]; THDM* shared_thdm[2]; std::string slha_text[5];
 }
 struct CanaryState { double scratch; int init; double memo; };
 extern CanaryState canary_state;
@@ -89,14 +89,16 @@ static Image shared_bytes() {
       im.insert(im.end(), (char*)ops::shared_mssm[p], (char*)ops::shared_mssm[p] + sizeof(gm2calc::MSSMNoFV_onshell));
       im.insert(im.end(), (char*)ops::shared_thdm[p], (char*)ops::shared_thdm[p] + sizeof(gm2calc::THDM));
    }
+   for (int p = 0; p < 2; p++) im.insert(im.end(), (char*)ops::shared_edge[p], (char*)ops::shared_edge[p] + sizeof(gm2calc::MSSMNoFV_onshell));
    return im;
 }
 static uint64_t hash_shared() {
    uint64_t h = 1469598103934665603ull;
    for (int p = 0; p < 2; p++) { h = fnv((const char*)ops::shared_mssm[p], sizeof(gm2calc::MSSMNoFV_onshell), h); h = fnv((const char*)ops::shared_thdm[p], sizeof(gm2calc::THDM), h); }
+   for (int p = 0; p < 2; p++) h = fnv((const char*)ops::shared_edge[p], sizeof(gm2calc::MSSMNoFV_onshell), h);
    return h;
 }
-static std::string shared_text() { return ops::text(*ops::shared_mssm[0]) + ops::text(*ops::shared_mssm[1]) + ops::text(*ops::shared_thdm[0]) + ops::text(*ops::shared_thdm[1]); }
+static std::string shared_text() { return ops::deep(*ops::shared_mssm[0]) + ops::deep(*ops::shared_mssm[1]) + ops::deep(*ops::shared_thdm[0]) + ops::deep(*ops::shared_thdm[1]) + ops::deep(*ops::shared_edge[0]) + ops::deep(*ops::shared_edge[1]); }
 
 // ---------------------------------------------------------------- scheduler
 static const int MAXT = 3;
@@ -184,7 +186,8 @@ static Exec execute(int n, const int* op, const int* ps, int start, const std::v
    for (int i = 0; i < n; i++) { int o = op[i], p = ps[i]; ops::Res* rp = &e.r[i]; body[i] = [o, p, rp] { all_ops[o].fn(p, *rp); }; }
    e.steps = run_threads(n, start, pl);
    Image sb = shared_bytes(); e.shared_changed = (sb != shared0);
-   if (e.shared_changed) { size_t o = 0; for (int p = 0; p < 2; p++) { std::memcpy((char*)ops::shared_mssm[p], shared0.data() + o, sizeof(gm2calc::MSSMNoFV_onshell)); o += sizeof(gm2calc::MSSMNoFV_onshell); std::memcpy((char*)ops::shared_thdm[p], shared0.data() + o, sizeof(gm2calc::THDM)); o += sizeof(gm2calc::THDM); } }
+   if (e.shared_changed) { size_t o = 0; for (int p = 0; p < 2; p++) { std::memcpy((char*)ops::shared_mssm[p], shared0.data() + o, sizeof(gm2calc::MSSMNoFV_onshell)); o += sizeof(gm2calc::MSSMNoFV_onshell); std::memcpy((char*)ops::shared_thdm[p], shared0.data() + o, sizeof(gm2calc::THDM)); o += sizeof(gm2calc::THDM); }
+      for (int p = 0; p < 2; p++) { std::memcpy((char*)ops::shared_edge[p], shared0.data() + o, sizeof(gm2calc::MSSMNoFV_onshell)); o += sizeof(gm2calc::MSSMNoFV_onshell); } }
    return e;
 }
 
